@@ -541,11 +541,134 @@ fn residue_statement(rng: &mut Rng) -> String {
     .to_string()
 }
 
+/// A program that executes NEW itself, from inside a subroutine called in a FOR loop, with
+/// variables, an array, a user function and consumed DATA behind it: what is typed afterwards
+/// answers as on a runtime that was just started.
+#[derive(Clone)]
+struct C12SelfNewCase {
+    variant: u32,
+    probes: Vec<String>,
+    sched_variant: usize,
+    entropy: u64,
+}
+
+impl C12SelfNewCase {
+    fn program(&self) -> Vec<String> {
+        let stmt = match self.variant % 3 {
+            0 => "NEW",
+            1 => "PRINT \"IN\";:NEW",
+            _ => "IF I=2 THEN NEW",
+        };
+        vec![
+            "10 A=5:S$=\"X\":DIM Q(3):Q(1)=7:DEF FNA(X)=X+1:DEFINT W:W=2.5".to_string(),
+            "20 READ D:DATA 1,2,3".to_string(),
+            "30 FOR I=1 TO 3:GOSUB 100:NEXT".to_string(),
+            "40 PRINT \"NOT HERE\"".to_string(),
+            format!("100 {}", stmt),
+            "110 RETURN".to_string(),
+        ]
+    }
+}
+
+impl Case for C12SelfNewCase {
+    fn execute(&self) -> Verdict {
+        let mut v = Verdict::default();
+        let prog = self.program();
+        let mut w = World::booted(sched(self.sched_variant), self.entropy, false);
+        w.double_intr = self.entropy % 4 == 1;
+        let mut f = World::booted(sched(self.sched_variant + 1), self.entropy, false);
+        enter_program(&mut w, &prog);
+        let o = w.line("RUN", &LineIo::budget(5000));
+        let ran = tokens(&w.events[o.ev_start..o.ev_end]);
+        let mut fail: Option<Violation> = None;
+        w.stats.bump("c12.self_new");
+        if w.fatal.is_none() && ran.iter().any(|t| matches!(t, Tok::Out(s) if s.contains("NOT HERE"))) {
+            fail = Some(Violation {
+                key: "C12:self-new:program-went-on".into(),
+                detail: format!("the program went on after its own NEW: {:?}", ran),
+            });
+        }
+        if fail.is_none() && w.fatal.is_none() && !w.listing_text().is_empty() {
+            fail = Some(Violation {
+                key: "C12:self-new:listing-not-empty".into(),
+                detail: format!("after the program's own NEW the listing is {:?}", w.listing_text()),
+            });
+        }
+        for p in &self.probes {
+            if fail.is_some() || w.fatal.is_some() || f.fatal.is_some() {
+                break;
+            }
+            let o1 = w.line(p, &LineIo::budget(5000));
+            let o2 = f.line(p, &LineIo::budget(5000));
+            let a = tokens(&w.events[o1.ev_start..o1.ev_end]);
+            let b = tokens(&f.events[o2.ev_start..o2.ev_end]);
+            w.stats.bump("c12.lines_compared");
+            if a != b && w.fatal.is_none() && f.fatal.is_none() {
+                fail = Some(Violation {
+                    key: format!("C12:self-new:{}:differs-from-fresh", p.split(|c: char| !c.is_ascii_alphabetic()).next().unwrap_or("")),
+                    detail: format!("{:?} after the program executed NEW inside GOSUB/FOR: {} (a runtime just started is 'expected')", p, first_diff(&b, &a)),
+                });
+            }
+        }
+        if let Some(ft) = w.fatal.as_ref().or(f.fatal.as_ref()) {
+            fail = Some(fatal_violation("C12", ft));
+        }
+        v.violation = fail;
+        v.stats.merge(&w.stats);
+        v.stats.merge(&f.stats);
+        v.instr = w.total_instr + f.total_instr;
+        v.sim_us = w.sim_us;
+        v.executions = 2;
+        v.fingerprint = w.log_hash ^ f.log_hash.rotate_left(11);
+        v.nontrivial = true;
+        v
+    }
+    fn shrink(&self) -> Vec<Box<dyn Case>> {
+        let mut out: Vec<Box<dyn Case>> = vec![];
+        for i in 0..self.probes.len() {
+            if self.probes.len() > 1 {
+                let mut p = self.probes.clone();
+                p.remove(i);
+                out.push(Box::new(C12SelfNewCase {
+                    probes: p,
+                    ..self.clone()
+                }));
+            }
+        }
+        out
+    }
+    fn describe(&self) -> Json {
+        obj()
+            .set("kind", "C12 program executing NEW itself inside GOSUB/FOR, then lines compared with a runtime just started")
+            .set("program", program_json(&self.program()))
+            .set("probes", self.probes.clone())
+            .set("quantum_schedule_variant", self.sched_variant)
+            .build()
+    }
+}
+
 impl Property for C12 {
     fn id(&self) -> &'static str {
         "C12"
     }
     fn generate(&self, rng: &mut Rng, tier: Tier) -> Box<dyn Case> {
+        if rng.pct(2) {
+            let mut probes: Vec<String> = vec![];
+            for p in ["CONT", "RETURN", "NEXT", "NEXT I", "PRINT A;S$;Q(1);W;D", "PRINT FNA(1)", "READ X:PRINT X", "LIST", "10 PRINT 7", "RUN"] {
+                if rng.pct(60) {
+                    probes.push(p.to_string());
+                }
+            }
+            if probes.is_empty() {
+                probes.push("CONT".into());
+            }
+            return Box::new(C12SelfNewCase {
+                variant: rng.below(64) as u32,
+                probes,
+                sched_variant: rng.usize(3),
+                entropy: rng.next_u64(),
+            });
+        }
         if rng.pct(5) {
             let mut probes: Vec<String> = vec![];
             for p in ["RETURN", "NEXT", "NEXT I", "NEXT I%", "CONT", "PRINT FNA(1)", "PRINT A;I;J;C;W%;Z;Q(1);\"<\";D$;\">\"", "WEND", "READ X:PRINT X"] {
@@ -670,7 +793,7 @@ impl Property for C12 {
         }
     }
     fn rule(&self) -> &'static str {
-        "one evaluation = a generated program plus a session prefix of 1-5 steps (RUN/CONT to completion, planted error, STOP or Ctrl-C at a seeded instruction; direct statements leaving variables, arrays, DEFtype, READ position, abandoned FOR/GOSUB frames, a pending INPUT, RND draws behind), then one of: NEW + another generated program + RUN; RUN again; CLEAR + probe lines; NEW + probe lines + LIST (25% with a get_listing() snapshot held across the reset) - each line compared with a fresh twin runtime (entropy aligned at the compared RUN/CLEAR/NEW); (5%: a program that restarts itself with RUN / RUN n as a statement from inside GOSUB, FOR or WHILE when the operator answers 1; everything after the restart, and stray RETURN / NEXT / CONT / WEND / READ and variable probes afterwards, compared with RUN on a fresh runtime); distinct = distinct API/event log fingerprint; non-trivial = more than 20 VM instructions executed in the prefix"
+        "one evaluation = a generated program plus a session prefix of 1-5 steps (RUN/CONT to completion, planted error, STOP or Ctrl-C at a seeded instruction; direct statements leaving variables, arrays, DEFtype, READ position, abandoned FOR/GOSUB frames, a pending INPUT, RND draws behind), then one of: NEW + another generated program + RUN; RUN again; CLEAR + probe lines; NEW + probe lines + LIST (25% with a get_listing() snapshot held across the reset) - each line compared with a fresh twin runtime (entropy aligned at the compared RUN/CLEAR/NEW); (5%: a program that restarts itself with RUN / RUN n as a statement from inside GOSUB, FOR or WHILE when the operator answers 1; everything after the restart, and stray RETURN / NEXT / CONT / WEND / READ and variable probes afterwards, compared with RUN on a fresh runtime); 2% are programs that execute NEW themselves inside GOSUB/FOR (variables, array, function, DEFtype, consumed DATA behind it), after which CONT / RETURN / NEXT / PRINT / READ / LIST / a typed line + RUN answer as on a runtime just started; distinct = distinct API/event log fingerprint; non-trivial = more than 20 VM instructions executed in the prefix"
     }
     fn assumptions(&self) -> Vec<&'static str> {
         vec![
